@@ -392,3 +392,39 @@ def c19(tier):
 
 
 PROPS['C19'] = c19
+
+
+def c15(tier):
+    chk = core.Check('C15', tier)
+    chk.assumptions = ASSUME_REGMC[:3] + ["a `static` initialiser is a const context: every generated call inside it is evaluated by rustc's const evaluator; run-time arguments pass through black_box"]
+    structs, eds = sets.const_set(tier)
+    B.name_structs(structs, prefix=f"CONST_{tier.upper()}_")
+    reps = {}
+    for prof in (['checked'] if tier == 'quick' else ['checked', 'fast']):
+        t0 = time.time()
+        ws, ok, dt, diag = B.build_mixed_set(f"const-{tier}", structs, eds, prof, enum_ctab=True)
+        chk.extra.setdefault("build_s", {})[f"const-{tier}:{prof}"] = round(dt, 1)
+        if not ok:
+            errs = [l for l in diag.splitlines() if 'error' in l][:10]
+            notconst = [l for l in errs if 'E0015' in l]
+            key = "const context: a generated operation cannot be evaluated at compile time" if notconst else "const set: generated code for valid declarations does not compile"
+            chk.add_violation(key, "not_const" if notconst else "compile", key + "\n  " + "\n  ".join(notconst or errs),
+                              {"engine": "build", "workspace": f"const-{tier}", "profile": prof, "diagnostics": diag[-6000:]})
+            chk.states += len(structs)
+            chk.transitions += 1
+            chk.sample({"workspace": f"const-{tier}", "verdict": "rejected by rustc", "first_errors": errs[:3]})
+            return chk.finish()
+        rep = B.run(ws, prof, 'consteval', [], out_name=f"report-C15-{prof}.json")
+        chk.add_report(rep, f"consteval:{prof}")
+        reps[prof] = rep
+    chk.programs += len(structs) + len(eds)
+    if reps['checked']['machines'] != len(structs) + len(eds):
+        core.vacuous("const tables missing for some machines")
+    chk.bounds.append("cross-section of " + str(len(structs)) + " layouts (mixed overlapping layouts and builder layouts for every N<=8 and " + ("7" if tier == 'quick' else "16") + " wide bases; enum/Option<enum>/nested fields; builder samples; "
+                      "non-contiguous, array, signed samples; default forms) and " + str(len(eds)) + " bitenums: per layout compile-time tables for raw_value over all 2^N states (N<=8; A(N) above), every getter over all states, "
+                      "every with_ over states x values (w<=4 all values), builder chains + build(), ZERO, DEFAULT, new(), both enum conversions; each entry compared with the same call executed at run time" +
+                      (" in both profiles" if tier == 'thorough' else ""))
+    return chk.finish()
+
+
+PROPS['C15'] = c15
